@@ -39,6 +39,7 @@ def generate_queries(cfg, simulate=None, module="MCQueryGen", env=None):
 
 
 def generate_events(num, seed=None, cfg="EventGen.cfg"):
+    cfg = cfg or "EventGen.cfg"
     seed = common.seed() if seed is None else seed
     r = common.run_tlc("EventGen", cfg, workers=1,
                        extra=["-simulate", "num=%d" % num, "-depth", "400", "-seed", str(seed + 1)])
@@ -165,7 +166,7 @@ def _one_case(args):
     case, workdir, events_file, seqs_file, keep, flags = args
     d = os.path.join(workdir, "case%d" % case["id"])
     rec = {"id": case["id"], "backend": case["backend"], "q": case["q"], "support": case["support"],
-           "src": case["src"]}
+           "src": case["src"], "declv": case.get("declv", "none")}
     try:
         tr = translate.translate_source(case["src"], case["backend"], d, wire=case.get("wire", "ast"))
         files = []
@@ -179,7 +180,15 @@ def _one_case(args):
                 p = os.path.join(d, f["name"])
                 if f["exists"] and _RESIDUAL.search(open(p, errors="replace").read()):
                     residual.append(f["name"])
-        rec["translate"] = {"outcome": tr["outcome"], "exc": tr["exc"], "msg": tr["msg"], "treename": tr["treename"],
+        libs = []
+        cm = os.path.join(d, "package_CMakeLists.txt")
+        if tr["outcome"] == "ok" and os.path.exists(cm):
+            for ln in open(cm, errors="replace"):
+                if "LINK_LIBRARIES AnaAlgorithmLib" in ln:
+                    toks = ln.strip().rstrip(")").split()
+                    libs = toks[toks.index("AnaAlgorithmLib") + 1:]
+                    break
+        rec["translate"] = {"outcome": tr["outcome"], "exc": tr["exc"], "msg": tr["msg"], "treename": tr["treename"], "libs": libs,
                             "filename": tr["filename"], "files": files, "residual": residual,
                             "warnings": tr["warnings"]}
         rec["compile"] = {"ok": False, "stage": "", "msg": ""}
@@ -241,8 +250,9 @@ def validate(recs, events, math_file=None, batch=400):
     work = common.scratch("verif.v.")
     slim = []
     for r in recs:
-        slim.append({k: r[k] for k in ("id", "backend", "q", "support", "compile", "runs")} |
-                    {"translate": {k: r["translate"][k] for k in ("outcome", "exc", "treename", "filename", "files", "residual")}})
+        slim.append({k: r[k] for k in ("id", "backend", "q", "support", "compile", "runs")} | {"declv": r.get("declv", "none")} |
+                    {"translate": {k: r["translate"][k] for k in ("outcome", "exc", "treename", "filename", "files", "residual")} |
+                                  {"libs": r["translate"].get("libs", [])}})
     for i in range(0, len(slim), batch):
         chunk = slim[i:i + batch]
         tf = os.path.join(work, "trace%d.json" % i)
